@@ -16,6 +16,9 @@ def run(ck):
         g = dict(g); g["orc"] = 0
         g["calls"] = [pcall(a, "list") for a in PACKERS]
         groups.append(g)
+    for g in scope.q_scope(ck, 7 if q else 8, 2, [3, 4]):      # "coarse": longer arrival sequences over the values 0..2
+        if len(g["vals"]) >= 6:
+            g = dict(g); g["orc"] = 0; g["calls"] = [pcall(a, "list") for a in PACKERS]; groups.append(g)
     # dyadic fractions for the fit heuristics (values = numerators over 8, binsize 1 = 8/8 or 3/2 = 12/8)
     for g in scope.q_scope(ck, 4, 8, [8, 12]):
         if max(g["vals"]) <= g["C"]:
